@@ -185,6 +185,17 @@ def c19_jobs(tier, seed):
     return j
 
 
+def c20_jobs(tier, seed):
+    q = tier == "quick"
+    s = 20 if q else 200
+    j = []
+    j += shards("dbg", "w_ports", "c20 --svc local", 5, s, seed)
+    j += shards("dbg", "w_ports", "c20 --svc ipc", 5, s, seed, first=10)
+    j += shards("asan", "w_ports", "c20 --svc local", 3, s, seed, first=20)
+    j += shards("rel", "w_ports", "c20 --svc ipc", 2, s, seed, first=30)
+    return j
+
+
 PROPS = {
     "C09": {
         "level": "exploration",
@@ -306,5 +317,12 @@ PROPS = {
         "rule": "names: reference predicates written from the documentation of FileName, Path and FilePath, differential against the constructors over ALL byte strings of length <= 2 (quick) / <= 3 (thorough, 16.8 M per type) plus structured random strings up to 300 bytes (separators, dots, NUL, non-ASCII, maximum length +-1): accepted iff allowed, accepted names round-trip, an accepted file name cannot denote a location outside the root; mutation closure: from every accepted value of length <= 2 each of 12 mutating operations with 8 argument bytes yields a valid value or fails without changing it. Isolation: three domains (prefix P+'a' vs P+'ab' in one root; P+'a' again in a nested root) each run a node + publish-subscribe service in its own process: every created file lies under the domain's root with its prefix or is a /dev/shm object carrying the prefix; node and service listings of each domain show exactly its own; after one owner is killed, cleanup runs in the other domains neither see nor remove the dead node or any foreign file, the domain's own cleanup succeeds. Non-trivial = a random long string / an isolation query; exhaustive=true refers to the byte-string box.",
         "assumptions": ["Linux rules (the platform-independent forbidden set is enforced on Linux too)", "service and node names are plain ASCII strings stored in a fixed-size string, their validation is the string's (covered by C16)"],
         "floor": (100000, 100),
+    },
+    "C20": {
+        "level": "exploration",
+        "jobs": c20_jobs,
+        "rule": "sequential histories over {attach notification, attach deadline (1 h | 1 us), attach interval (1 h | 500 us), drop a guard, notify a service, drain a listener, process with zero timeout (sometimes notifying from inside the callback)} with 1-4 listeners on 1-2 event services, re-attach after detach, on the select (local) and epoll (ipc) reactors; after every processing call the set of reported attachments (matched against every live guard with has_event_from / has_missed_deadline) must equal the model set {attachments whose listener has an undrained notification} + {expired short deadlines/intervals}; no callback id may match no live guard; double attach must be refused with AlreadyAttached and len() unchanged; len() == live guards after every step; failing histories are shrunk. Non-trivial = a history with a processing call that reported something and at least one detach; distinct = distinct (configuration, history).",
+        "assumptions": ["deadlines are either far (never expected) or already expired when processing starts (3 ms pause), so wall-clock never decides", "the declared capacity (millions of attachments) is not reachable before the process runs out of descriptors and is not driven"],
+        "floor": (100, 30),
     },
 }
